@@ -400,7 +400,6 @@ func runC03(c *Ctx) {
 	// ---------- R03.8 the controller runtime's cached ContextWithTeardown (same obligations as C15 R15.6)
 	c.Import(runC15, "R15.6", "", "R03.8", "E1", "cached ContextWithTeardown: a waiter channel is closed on TearingDown put / any remove, deleted only together with its close, never removed by one of the callers sharing it; immediate cancel when absent or tearing down", 9)
 
-
 	// ---------- R03.9 (shared with C19 R19.3)
 	c.Import(runC19, "R19.3", "pkg/resource.Finalizers)", "R03.9", "E3", "Finalizers.Add/Remove write only to storage created in the same call: two parties adding finalizers to copies of one stored resource cannot overwrite each other's entry in a shared backing array (a finalizer that was acknowledged is still there when Teardown asks)", 2)
 
